@@ -2,7 +2,9 @@
 // run / reset / reboot / step_number / is_running / skip(every name) / teardown against a filter
 // whose filtering thread is running steps — exactly the situation the property quantifies over.
 //
-//   stdin, one case per line:   race <kind> <seed> <rounds> <pause_us>
+//   stdin, one case per line:   race <kind> <seed> <rounds> <pause_us> [<log directory> | -]
+//       with a log directory the filter's Logger is enabled before boot() (files <dir>/race_*.txt), so the
+//       filtering thread writes its log files in every step while the controller issues commands
 //       kind  kf   GaussianFilter( KFPrediction(LTI + exogenous), KFCorrection(LTI) )
 //             ukf  GaussianFilter( UKFPrediction(additive LTI + exogenous), UKFCorrection(additive LTI) )
 //             sis  SIS( DrawParticles(LTI + exogenous), BootstrapCorrection(LTI, likelihood) )
@@ -129,8 +131,13 @@ protected:
         correction().freeze_measurements();
         correction().correct(pred_, corr_);
         if (!(corr_.covariance().allFinite() && corr_.mean().allFinite() && corr_.covariance().trace() < 1e6)) initialization_step();
+        log();
         g_steps.fetch_add(1, std::memory_order_relaxed);
     }
+    std::vector<std::string> log_file_names(const std::string& folder_path, const std::string& file_name_prefix) override {
+        return { folder_path + "/" + file_name_prefix + "_pred_mean", folder_path + "/" + file_name_prefix + "_cor_mean" };
+    }
+    void log() override { logger(pred_.mean().transpose(), corr_.mean().transpose()); }
 private:
     Gaussian pred_, corr_;
 };
@@ -203,9 +210,11 @@ static void let_it_step(long more) {
     for (int i = 0; i < 20000 && g_steps.load(std::memory_order_relaxed) < target; ++i) usleep(50);
 }
 
-static std::string run_case(const std::string& kind, unsigned seed, long rounds, long pause) {
+static std::string run_case(const std::string& kind, unsigned seed, long rounds, long pause, const std::string& logdir) {
     std::unique_ptr<FilteringAlgorithm> f = make(kind, seed);
     if (!f) return "bad-kind";
+    bool logging = false;
+    if (!logdir.empty() && logdir != "-") logging = f->enable_log(logdir, "race_" + kind);
     std::mt19937 r(seed * 7919u + 13u);
     Ctl c(*f);
     g_steps.store(0, std::memory_order_relaxed);
@@ -248,7 +257,7 @@ static std::string run_case(const std::string& kind, unsigned seed, long rounds,
     c.wait();
     (void) f->is_running(); (void) f->step_number(); // after the join: ordered, never a race
     std::ostringstream os;
-    os << "ok kind=" << kind << " steps=" << g_steps.load(std::memory_order_relaxed) << " cmds=" << c.total()
+    os << "ok kind=" << kind << " logging=" << (logging ? 1 : 0) << " steps=" << g_steps.load(std::memory_order_relaxed) << " cmds=" << c.total()
        << " run=" << c.n_run << " reset=" << c.n_reset << " reboot=" << c.n_reboot << " teardown=" << c.n_teardown << " wait=" << c.n_wait
        << " step_number=" << c.n_step_number << " is_running=" << c.n_is_running;
     for (int n = 0; n < 6; ++n) os << " skip:" << kNames[n] << "=" << c.skip_ok[n] << "/" << c.skip_rej[n];
@@ -260,11 +269,11 @@ int main() {
     std::string line;
     while (std::getline(std::cin, line)) {
         std::istringstream is(line);
-        std::string op, kind; unsigned seed = 0; long rounds = 1, pause = 100;
-        is >> op >> kind >> seed >> rounds >> pause;
+        std::string op, kind, logdir; unsigned seed = 0; long rounds = 1, pause = 100;
+        is >> op >> kind >> seed >> rounds >> pause >> logdir;
         if (op != "race") { std::cout << "bad-op\n"; continue; }
         std::string out;
-        try { out = run_case(kind, seed, rounds, pause); }
+        try { out = run_case(kind, seed, rounds, pause, logdir); }
         catch (const std::exception& e) { out = std::string("throw:") + e.what(); }
         std::cout << out << "\n" << std::flush;
     }
